@@ -107,6 +107,7 @@ def run_one(fx, repo):
 
 
 def main():
+    global ROOT
     args = sys.argv[1:]
     props, kinds, out_json, repo, jobs = None, {"seeded", "mutants", "refactors"}, None, "/repo", 8
     all_props = False
@@ -145,8 +146,19 @@ def main():
     if b.returncode != 0:
         print("build failed:", b.stderr[-500:])
         return 2
-    with concurrent.futures.ThreadPoolExecutor(max_workers=jobs) as ex:
-        results = list(ex.map(lambda f: run_one(f, repo), fxs))
+    # run against a snapshot of the checker (binary, pyan, refs, tables), so that editing /verif while a long
+    # battery runs cannot change what it measures
+    orig_root = ROOT
+    snap = tempfile.mkdtemp(prefix="yardlsnap.")
+    subprocess.run(["rsync", "-a", "--exclude", ".git", "--exclude", "seeded", "--exclude", "evidence", "--exclude", "selftest",
+                    "--exclude", "__pycache__", ROOT.rstrip("/") + "/", snap + "/"], check=True)
+    ROOT = snap
+    try:
+        with concurrent.futures.ThreadPoolExecutor(max_workers=jobs) as ex:
+            results = list(ex.map(lambda f: run_one(f, repo), fxs))
+    finally:
+        ROOT = orig_root
+        shutil.rmtree(snap, ignore_errors=True)
     bad = 0
     for r in results:
         line = "%-9s %-28s %-4s %-11s %s" % (r["kind"], r["id"], r["prop"], r["result"], " ".join(r.get("fired", []))[:160])
